@@ -227,12 +227,8 @@ impl Oracle {
                 // A table filled through insert_or_replace (alias-map usage) and then drained with
                 // iter_key (index usage): no map of the database is used both ways, so this is not a
                 // query that fails to terminate. Latent defect of MultiMapIterator, reported separately.
-                v.push(Violation {
-                    key: format!("C19/latent-iterator-wrap-mixed-usage/{}", query_site(&op)),
-                    rule: "draining iter_key on a map that was filled through insert_or_replace (never done by the database)".to_string(),
-                    expected: "a result".to_string(),
-                    observed: "no return within the time bound (worker killed)".to_string(),
-                });
+                // Not a violation of C19 as stated (no query can do this): counted as an observation only.
+                self.count("observed:latent-iterator-wrap-mixed-usage(outside-property)");
             } else if out == "timeout" {
                 v.push(Violation {
                     key: format!("C19/hang/{}", query_site(&op)),
